@@ -300,12 +300,14 @@ def run_batches(cases, model_exe, routing, bindirs, workdir, tag, consume=None):
         attempt = 0
         hangs = 0
         while todo:
-            if hangs >= 3:
-                # an implementation that keeps hanging: the remaining cases of the shard are reported as not run
+            if hangs >= 3 or len(died) >= 25:
+                # an implementation that keeps hanging or dying: the remaining cases of the shard are reported as not
+                # run (each death / hang is a violation of its own; re-running the rest after every one of thousands
+                # would take quadratic time)
                 for l in todo:
                     cid = l.split(" ", 1)[0]
-                    traces[cid] = [{"_step": "0", "_raw": "<not run: the implementation hung %d times in this shard>" % hangs,
-                                    "viol": "process-hung_not-run"}]
+                    traces[cid] = [{"_step": "0", "_raw": "<not run: the implementation hung %d times and died %d times in this shard>" % (hangs, len(died)),
+                                    "viol": "process-hung_not-run" if hangs >= 3 else "process-died_not-run"}]
                 break
             cf, of = "%s.r%d.case" % (base, attempt), "%s.r%d.impl" % (base, attempt)
             open(cf, "w").write("\n".join(todo) + "\n")
